@@ -78,8 +78,12 @@ def op_strategy(weights=None):
         "table_op": st.tuples(st.just("table_op"), I, I, st.integers(0, 9), st.integers(0, 5), st.integers(0, 5),
                               st.integers(0, 5), st.integers(0, 5)),
         "chart_fmt": st.tuples(st.just("chart_fmt"), I, I, st.integers(0, 24), st.integers(0, 6)),
-        "hyperlink": st.tuples(st.just("hyperlink"), I, I, st.integers(-1, len(URLS) - 1)),
-        "run_hyperlink": st.tuples(st.just("run_hyperlink"), I, I, st.integers(-1, len(URLS) - 1)),
+        # few distinct URLs and few target slides so relationships get shared and reference-counted
+        "hyperlink": st.tuples(st.just("hyperlink"), st.integers(0, 1), I, st.sampled_from([-1, -1, 0, 0, 0, 1, 1, 2, 3, 4])),
+        "run_hyperlink": st.tuples(st.just("run_hyperlink"), st.integers(0, 1), I, st.sampled_from([-1, -1, 0, 0, 0, 1, 1, 2, 3, 4])),
+        "link_burst": st.tuples(st.just("link_burst"), st.integers(0, 1),
+                                st.lists(st.tuples(st.integers(0, 3), st.sampled_from([-1, 0, 0, 1]), st.booleans()),
+                                         min_size=3, max_size=6)),
         "target_slide": st.tuples(st.just("target_slide"), I, I, st.integers(-1, 10)),
         "notes": st.tuples(st.just("notes"), I, st.integers(-1, len(TEXTS) - 1)),
         "remove_layout": st.tuples(st.just("remove_layout"), I),
@@ -93,7 +97,7 @@ def op_strategy(weights=None):
     }
     default_w = {"add_slide": 3, "add_shape": 4, "add_textbox": 3, "add_connector": 2, "add_picture": 3, "add_group": 3,
                  "add_freeform": 2, "add_table": 2, "add_chart": 3, "replace_data": 2, "add_movie": 1, "add_ole": 1,
-                 "ph_insert": 2, "set_text": 4, "para_op": 3, "fmt": 6, "table_op": 4, "chart_fmt": 4, "hyperlink": 3,
+                 "ph_insert": 2, "set_text": 4, "para_op": 3, "fmt": 6, "table_op": 4, "chart_fmt": 4, "hyperlink": 3, "link_burst": 2,
                  "run_hyperlink": 2, "target_slide": 2, "notes": 2, "remove_layout": 1, "core_prop": 1, "slide_prop": 1,
                  "read": 2, "bad_call": 1, "turbo": 1, "save": 3, "save_reopen": 2}
     w = dict(default_w)
@@ -172,7 +176,8 @@ class Interp:
     """Executes ops on a live presentation. Hooks: before_op(interp, op), after_op(interp, op, outcome, info),
     at_save(interp, bytes). `info` is a dict the op fills (e.g. {'added': shape, 'slide': slide})."""
 
-    def __init__(self, prs, hooks=(), crash="continue"):
+    def __init__(self, prs, hooks=(), crash="continue", prefix="deck"):
+        self.prefix = prefix
         # crash: what an undocumented exception escaping from python-pptx means for the running check:
         #   "violation" -> core.Violation (only where the property demands the call be accepted)
         #   "continue"  -> outcome 'crashed:<Exc>@<frame>', history goes on (state must stay consistent)
@@ -214,7 +219,10 @@ class Interp:
         info = {}
         name = op[0]
         fn = getattr(self, "op_" + name)
-        outcome = fn(info, *op[1:])
+        # selecting slides/shapes is pure reading of a deck python-pptx produced or loaded: an exception there
+        # means the deck has become unusable (reported under the running check's property)
+        with sut("%s:deck-unusable:%s" % (self.prefix, name)):
+            outcome = fn(info, *op[1:])
         self.counts[name + ":" + outcome.split(":")[0]] = self.counts.get(name + ":" + outcome.split(":")[0], 0) + 1
         self.trace.append([op, outcome])
         for h in self.hooks:
@@ -827,6 +835,15 @@ class Interp:
             r.hyperlink.address = None if url_i < 0 else URLS[url_i]
         info.update(slide=sl, target=sh)
         return self._call("run_hyperlink", f)
+
+    def op_link_burst(self, info, slide_i, items):
+        """several hyperlink assignments on few shapes of one slide: shared, re-assigned and cleared URLs"""
+        out = "skipped"
+        for shape_i, url_i, on_run in items:
+            r = (self.op_run_hyperlink if on_run else self.op_hyperlink)(info, slide_i, shape_i, url_i)
+            if r != "skipped":
+                out = r if out in ("skipped", "ok") else out
+        return out
 
     def op_target_slide(self, info, slide_i, shape_i, slide_j):
         sl = self.slide(slide_i)
